@@ -48,6 +48,12 @@ def build_data(paths, cpath=None, opts=None, **kw):
                 locations_x=opts.get("locations_x"), lat_range=opts.get("latrange"),
                 lon_range=opts.get("lonrange"), elev_range=opts.get("elevrange"),
                 obs_range=opts.get("obsrange"))
+    if opts.get("T"):
+        import verif.aggregator
+        import verif.axis
+        T = opts["T"]
+        args.update(dim_agg_length=T["h"], dim_agg_axis=verif.axis.get(T.get("tx", "leadtime")),
+                    dim_agg_method=verif.aggregator.get(T.get("agg", "mean")))
     args.update(kw)
     return verif.data.Data(inputs, **args)
 
